@@ -141,16 +141,16 @@ Proof.
   intros. unfold call. rewrite orb_true_r. reflexivity.
 Qed.
 
-Lemma call_bodyless : forall cfg cl i a hd ex, c_empty cl = true -> rs_body (call cfg cl i a hd ex) = Some [].
+Lemma call_bodyless : forall cfg cl i a hd ex, c_empty cl = true -> (ex = None \/ ex = Some []) ->
+  rs_body (call cfg cl i a hd ex) = Some [].
 Proof.
-  intros cfg cl i a hd ex H. unfold call. rewrite H, orb_true_r. cbn [orb rs_body].
-  destruct hd; reflexivity.
+  intros cfg cl i a hd ex H [-> | ->]; unfold call; rewrite H; cbn [nonempty orb rs_body]; destruct hd; reflexivity.
 Qed.
 
 Lemma call_explicit : forall cfg cl i a b,
-  c_empty cl = false -> b <> [] -> rs_body (call cfg cl i a false (Some b)) = Some b.
+  b <> [] -> rs_body (call cfg cl i a false (Some b)) = Some b.
 Proof.
-  intros cfg cl i a b H Hb. unfold call. rewrite H.
+  intros cfg cl i a b Hb. unfold call.
   destruct b as [|x b]; [congruence|]. reflexivity.
 Qed.
 
